@@ -1,6 +1,6 @@
 #!/bin/sh
 # usage: lib/trymut.sh <patch.diff> <ID> [tier]   — apply a seeded change to /repo, run the check, undo.
-P="$1"; ID="$2"; TIER="${3:-quick}"
+P="$(realpath "$1")"; ID="$2"; TIER="${3:-quick}"
 if ! git -C /repo apply --check "$P" 2>/dev/null; then echo "PATCH DOES NOT APPLY: $P"; exit 3; fi
 git -C /repo apply "$P"
 ./check "$ID" "$TIER"; rc=$?
